@@ -124,7 +124,7 @@ def first_bad_event(trace, matched):
 def run(ctx):
     mode = MODE[ctx.pid]
     rng = ctx.rng
-    n = 5 if ctx.quick else 7
+    n = 6 if ctx.quick else 7
     exe = build.driver("drv_tree", ["drv_tree.c"], variant="default")
     exe_asan = build.driver("drv_tree", ["drv_tree.c"], variant="asan")
     # ---- M1: P-spec
@@ -155,9 +155,14 @@ def run(ctx):
                 # properties it only makes this run inconclusive for that file
                 if mode == "map":
                     ctx.violation("map:%s:%s" % (kind, "hang" if to2 else "crash"), what, [sp])
-                else:
-                    ctx.notes.append("inconclusive file (see C12): " + what[:300])
-                continue
+                    continue
+                # the other two properties are judged on the prefix recorded before the crash (a truncated last line is dropped)
+                ctx.notes.append("driver died on this file (reported by C12); validating the recorded prefix: " + what[:200])
+                try:
+                    good = [ln for ln in open(tp).read().split("\n") if ln.endswith("}")]
+                    open(tp, "w").write("\n".join(good) + "\n")
+                except OSError:
+                    continue
         traces.append((kind, sp, tp, group))
     # I-level shape comparison (DRIFT only)
     nobs = 0
